@@ -9,5 +9,18 @@ open World Gen.Kernel
 /-- `Iter::len` (`ExactSizeIterator`) -/
 theorem iter_len_tie (c : Cursor) : iter_len c.index c.end_ = .ok (.ret c.len) := rfl
 
+/-- `Iter::next`: the yielded slot and the advanced cursor -/
+theorem iter_next_tie (c : Cursor) :
+    iter_next c.index c.end_ = .ok (.step c.next.1 c.next.2.index c.next.2.end_) := by
+  by_cases h : c.index = c.end_ <;> simp [iter_next, Cursor.next, h, Pure.pure, Bind.bind, Res.bind]
+
+/-- `Iter::next_back` -/
+theorem iter_next_back_tie (c : Cursor) :
+    iter_next_back c.index c.end_ = .ok (.step c.nextBack.1 c.nextBack.2.index c.nextBack.2.end_) := by
+  by_cases h : c.end_ = c.index <;> simp [iter_next_back, Cursor.nextBack, h, Pure.pure, Bind.bind, Res.bind]
+
+/-- `impl Clone for Iter`: the clone has the same cursor -/
+theorem iter_clone_tie (c : Cursor) : iter_clone c.index c.end_ = .ok (.made 0 [c.index, c.end_]) := rfl
+
 end KernelTie
 end AnyVec
